@@ -278,7 +278,7 @@ func judgeClientCase(r *vlib.Run, mode string, trial int, cc *clientCase, phases
 	}
 	r.Count("panics_"+cc.Entry, 1)
 	var culprit *pb.SubscribeResponse
-	for _, x := range all {
+	alone := func(x *pb.SubscribeResponse) bool {
 		one := [][]*pb.SubscribeResponse{{x, syncResp}}
 		switch {
 		case cc.qt == client.Stream:
@@ -288,18 +288,31 @@ func judgeClientCase(r *vlib.Run, mode string, trial int, cc *clientCase, phases
 			// The polling protocol: the server syncs, then answers the poll trigger.
 			one = [][]*pb.SubscribeResponse{{x}, {}}
 		}
-		if _, p2, _, _ := runClientCase(cc, one); p2 != nil && p2.Kind == pi.Kind {
+		_, p2, _, _ := runClientCase(cc, one)
+		return p2 != nil && p2.Kind == pi.Kind
+	}
+	for _, x := range all {
+		if alone(x) {
 			culprit = x
 			break
 		}
 	}
-	class := streamClass(cc.Entry, pi, culprit, all)
+	class, named := streamClass(cc.Entry, pi, culprit, all)
+	var small proto.Message
+	if !named && culprit != nil {
+		small = shrink(culprit, 100, func(m proto.Message) bool { return alone(m.(*pb.SubscribeResponse)) })
+		class = shrunkClass(pi.Kind, small)
+	}
 	w := map[string]interface{}{"entry_point": cc.Entry, "case": cc, "responses": texts, "panic": pi, "input_class": class}
 	what := fmt.Sprintf("%s (query type %s): %s", cc.Entry, cc.QueryType, pi)
 	if culprit != nil {
 		w["culprit_response"] = ptext(culprit)
 		w["fingerprint"] = fingerprint(culprit)
 		what += "; reproduced by the single response: " + truncate(ptext(culprit), 400)
+		if small != nil {
+			w["shrunk_response"] = ptext(small)
+			what += "; shrunk to: " + truncate(ptext(small), 200)
+		}
 	} else {
 		what += fmt.Sprintf("; no single response of the %d-message stream reproduces it alone", len(all))
 	}
@@ -367,6 +380,7 @@ func drawPhases(rng *rand.Rand, cc *clientCase, next func() *pb.SubscribeRespons
 func modeClientStructured(cliEntry bool) func(r *vlib.Run, mode string, trial int, rng *rand.Rand) {
 	return func(r *vlib.Run, mode string, trial int, rng *rand.Rand) {
 		g := newGen(rng, baseTS)
+		g.maxKeys = 250
 		next := func() *pb.SubscribeResponse {
 			for {
 				if m, _, ok := roundTrip(g.response(), newSubscribeResponse); ok {
@@ -389,6 +403,7 @@ func modeClientStructured(cliEntry bool) func(r *vlib.Run, mode string, trial in
 func modeClientMutation(cliEntry bool) func(r *vlib.Run, mode string, trial int, rng *rand.Rand) {
 	return func(r *vlib.Run, mode string, trial int, rng *rand.Rand) {
 		g := newGen(rng, baseTS)
+		g.maxKeys = 250
 		var seeds [][]byte
 		for len(seeds) < 10 {
 			if _, b, ok := roundTrip(g.response(), newSubscribeResponse); ok {
